@@ -14,6 +14,12 @@
 #include CAT_C
 #include "l1_build.h"
 
+/* arguments of the call are named ghosts (so that a counterexample can be replayed natively) */
+static size_t g_api_cmd, g_api_name; static int g_api_int;
+#define A_CMD  h_cmd_at(g_api_cmd)
+#define A_INT  g_api_int
+#define A_NAME h_names[g_api_name % H_NC]
+
 void harness(void)
 {
         h_build_descriptor();
@@ -22,6 +28,7 @@ void harness(void)
         h_obj.unsolicited_fsm.state = (cat_unsolicited_state)nondet_int();
         g_crlf = h_crlf;
         h_reset_logs();
+        g_api_cmd = nondet_size(); g_api_name = nondet_size(); g_api_int = nondet_int();
         (void)API_CALL;
         __CPROVER_assert(0, "CANARY end of harness reachable");
 }
